@@ -10,7 +10,7 @@ CFG = {
                           "RpmVerif.C12.input_files_failed", "RpmVerif.C12.input_of_files", "RpmVerif.C12.input_items_are_iteration",
                           "RpmVerif.C12.input_index_in_range", "RpmVerif.C12.input_item_designated",
                           "RpmVerif.C12.input_item_path_is_entry_name", "RpmVerif.C12.input_digests_standard",
-                          "RpmVerif.C12.compressor_tables_agree", "RpmVerif.C12.compressor_names_ascii",
+                          "RpmVerif.C12.compressor_tables_agree", "RpmVerif.C12.default_compressor_is_identity", "RpmVerif.C12.compressor_names_ascii",
                           "RpmVerif.C12.payload_compressor_bridge", "RpmVerif.C12.extract_package_hostile",
                           "RpmVerif.C12.extract_package_total", "RpmVerif.C12.digest_table_decides",
                           "RpmVerif.C12.digest_algo_fallbacks"],
